@@ -74,6 +74,10 @@ def legal(op, ver, sender, seq, i, extra=None, after_finished=False,
             return True
         return False
     if op == "insert":
+        if extra == APPDATA and post:
+            # after the sender's Finished application data is what follows;
+            # a TLS 1.3 server may send it right away (0.5-RTT)
+            return True if (tls13 and sender == "s") else None
         if extra == CCS:
             if tls13 and not post:
                 return None
@@ -102,7 +106,17 @@ def legal(op, ver, sender, seq, i, extra=None, after_finished=False,
     if op == "replace":
         if extra == m:
             return None      # same message type, other content: not ordering
-        return False
+        # = message i left out and `extra` sent in its place
+        a = legal("skip", ver, sender, seq, i, kex=kex)
+        if a is False:
+            return False
+        rest = seq[:i] + seq[i + 1:]
+        if i >= len(rest):
+            return False
+        b = legal("insert", ver, sender, rest, i, extra, kex=kex)
+        if b is False:
+            return False
+        return True if (a is True and b is True) else None
     if op == "append":
         # message m immediately followed, in the same record, by `extra`
         if tls13 and m in (CLIENT_HELLO, SERVER_HELLO, FINISHED, KEY_UPDATE):
